@@ -49,6 +49,14 @@ OptmLaw == kind = "optm" => LET m == Read(W) IN
     /\ ~m.short /\ m.qok /\ m.fatal = <<>> /\ m.trail = <<>> /\ Len(m.recs) = 1
     /\ m.recs[1].lo = OptmCur /\ m.recs[1].hi = OptmCur + Len(OptmRdata(lay))
     /\ m.recs[1].v = (IF lay.code >= 65001 /\ lay.code <= 65534 THEN "ok" ELSE "free")
+\* a split zone: both files together hold every line once plus the $INCLUDE line, and every
+\* line has a place in exactly the file that holds it
+ZincLaw == (kind = "zinc" /\ nf >= 1) =>
+    /\ lay.c < lay.d /\ Len(ZincMain(lay).lines) + Len(ZincSub(lay).lines) = Len(lay.lines) + 1
+    /\ \A i \in 1..Len(lay.lines) :
+           LET loc == ZincLoc(lay, i)
+               f == IF loc[1] = 1 THEN ZincSub(lay) ELSE ZincMain(lay) IN
+           loc[2] \in 1..Len(f.lines) /\ f.lines[loc[2]] = lay.lines[i] /\ Len(f.lines) = ZincLen(lay, loc[1])
 TextLaw == (IsText(kind) /\ nf = 0) => TextVerdict(kind, base, hist) = "ok"
 SpecLaw == (kind \in {"rdw", "optw"} /\ nf = 0) => SpecVerdict(hist) = "ok" /\ lay.len = Len(lay.b)
 =============================================================================
